@@ -57,7 +57,10 @@ FIELD_CHOICES = {
 ALPHA = ['a', ' ', '\n', '{', '}', '[', ']', '<', '>', '(', ')', '$', '€', '\\', '!', '%', '#', '~']
 ATOMS = ALPHA + ['\\(', '\\)', '\\[', '\\]', '$$', '€€', '\\begin{a}', '\\end{a}', '\n\n', '\\a', '!a', '--', 'b',
                  # every construct also spelled with the alternative escape / comment characters
-                 '!begin{a}', '!end{a}', '!begin', '!end{', '!(', '!)', '![', '!]', '!!', '#c\n', '%c\n', '!a b', '\\a b']
+                 '!begin{a}', '!end{a}', '!begin', '!end{', '!(', '!)', '![', '!]', '!!', '#c\n', '%c\n', '!a b', '\\a b',
+                 # arguments that are read in text mode / in math mode whatever the surrounding mode (default context)
+                 '\\text{', '\\mbox{a %c\n b}', '\\textbf{v $w$ z}', '\\text{p <q> [r] (s)}', '\\ensuremath{x %c\n$y$}',
+                 '\\text{a~b--c}', '!text{a #c\n b}']
 
 
 def single_steps():
